@@ -30,7 +30,7 @@ var kinds = []string{"cq", "batch", "alias", "handover", "mix", "reassign", "cq"
 func cases(tier string, seed int64) []fw.Case {
 	n, steps := 30, 70
 	if tier == "thorough" {
-		n, steps = 240, 160
+		n, steps = 160, 160
 	}
 	var cs []fw.Case
 	for i := 0; i < n; i++ {
